@@ -191,10 +191,21 @@ impl GcMap {
         &*view as *const _
     }
 
+    /// The form under which a key is stored and looked up: never a heap cell and never a
+    /// *present* optional. `m[xs.index_of(6)]` must find the entry stored under the plain `1`,
+    /// like `xs.index_of(6) == 1` holds; hashing and `Eq` are structural and would tell them apart.
+    fn normalize_key(key: Primitive) -> Result<Primitive> {
+        let mut key = key.move_out_of_heap_primitive()?;
+        while let Primitive::Optional(Some(ref inner)) = key {
+            key = inner.as_ref().clone().move_out_of_heap_primitive()?;
+        }
+        Ok(key)
+    }
+
     pub fn insert(&self, key: Primitive, value: Primitive) -> Result<Option<Primitive>> {
         let mut view = self.0.borrow_mut();
         Ok(view.insert(
-            key.move_out_of_heap_primitive()?,
+            Self::normalize_key(key)?,
             value.move_out_of_heap_primitive()?,
         ))
     }
@@ -202,7 +213,7 @@ impl GcMap {
     pub fn get(&self, key: Primitive) -> Result<Primitive> {
         let view = self.0.borrow();
         Ok(view
-            .get(&key.move_out_of_heap_primitive()?)
+            .get(&Self::normalize_key(key)?)
             .cloned()
             .unwrap_or(Primitive::Optional(None)))
     }
@@ -212,9 +223,9 @@ impl GcMap {
         view.len()
     }
 
-    pub fn contains_key(&self, key: &Primitive) -> bool {
+    pub fn contains_key(&self, key: &Primitive) -> Result<bool> {
         let view = self.0.borrow();
-        view.contains_key(key)
+        Ok(view.contains_key(&Self::normalize_key(key.clone())?))
     }
 
     pub fn keys(&self) -> Vec<Primitive> {
@@ -242,7 +253,7 @@ impl GcMap {
         Ok(self
             .0
             .borrow_mut()
-            .remove(&key.move_out_of_heap_primitive()?))
+            .remove(&Self::normalize_key(key)?))
     }
 }
 
